@@ -131,6 +131,32 @@ Proof.
   - apply Zs_eqb_eq in Hsort. rewrite <- Hsort. apply ZSort.Permuted_sort.
 Qed.
 
+(* ---- gradient blocks: block i of the gradient covers the same index set as block i of the parameter -- *)
+Definition C05_grad_checkb (obs_p obs_g : list view) : bool :=
+  forallb2 (fun p g => Zs_eqb (ZSort.sort (view_offsets p)) (ZSort.sort (view_offsets g))
+                       && Zs_eqb (vsizes p) (vsizes g)) obs_p obs_g.
+
+Theorem C05_grad_checkb_sound obs_p obs_g : C05_grad_checkb obs_p obs_g = true ->
+  Forall2 (fun p g => Permutation (view_offsets p) (view_offsets g) /\ vsizes p = vsizes g) obs_p obs_g.
+Proof.
+  unfold C05_grad_checkb. revert obs_g; induction obs_p as [|p ps IH]; destruct obs_g as [|g gs]; cbn [forallb2];
+    intros H; try discriminate; [constructor|].
+  apply andb_true_iff in H as [H1 H2]. apply andb_true_iff in H1 as [Ha Hb].
+  apply Zs_eqb_eq in Ha, Hb. constructor; [|apply IH; exact H2]. split; [|exact Hb].
+  eapply perm_trans; [apply ZSort.Permuted_sort|]. rewrite Ha. apply Permutation_sym, ZSort.Permuted_sort.
+Qed.
+
+(* ---- update_params: the storage holds, at every offset a block addresses, that block's direction ---- *)
+Theorem update_okb_sound bl bases storage : update_okb bl bases storage = true ->
+  length (scatter bl (update_dirs bl bases)) = length storage
+  /\ length bl = length bases
+  /\ Forall (fun ov => 0 <= fst ov /\ nth (Z.to_nat (fst ov)) storage (-1) = snd ov) (scatter bl (update_dirs bl bases)).
+Proof.
+  unfold update_okb. intros H. apply andb_true_iff in H as [H H3]. apply andb_true_iff in H as [H1 H2].
+  apply Nat.eqb_eq in H1, H2. split; [exact H1|]. split; [exact H2|].
+  apply Forall_forall. intros ov Hov. rewrite forallb_forall in H3. specialize (H3 ov Hov). lia.
+Qed.
+
 (* the checker accepts what the model produces, on instances (it is a test here, not a theorem) and
    rejects faulty layouts *)
 Example checker_accepts_model :
